@@ -580,6 +580,36 @@ def oracle_cluster(line, out):
     return None
 
 
+def oracle_indelfile(line, out):
+    """C20 on the written file: counts sum to the number of calls found, every query id in exactly one line,
+    no line mixes types or chromosomes, every call's interval is covered by its line"""
+    op, kv = kv_of(line)
+    def calls(t):
+        return [tuple(e.split(":")) for e in kv.get(t, "").split(";") if e]
+    ins, dels = calls("INS"), calls("DEL")
+    if out.startswith("ERR"):
+        return f"writing the indel file raises {out[4:]}"
+    rows = [tuple(e.split(":")) for e in out.split(";") if e]
+    if sum(int(r[8]) for r in rows) != len(ins) + len(dels):
+        return f"Count values sum to {sum(int(r[8]) for r in rows)}, {len(ins) + len(dels)} calls were found"
+    ids = [q for r in rows for q in r[4].split(",")]
+    want = sorted(c[4] for c in ins + dels)
+    if sorted(ids) != want:
+        return "the query ids of the file are not exactly the query ids of the calls found (each once)"
+    by_id = {c[4]: c for c in ins + dels}
+    for r in rows:
+        for q in r[4].split(","):
+            c = by_id[q]
+            if (c[0], c[1]) != (r[0], r[1]):
+                return "a line mixes types or chromosomes"
+            if not (int(r[2]) <= int(c[2]) and int(c[3]) <= int(r[3])):
+                return "a call's reference interval is not covered by its line"
+    keys = [(int(r[1]), int(r[3])) for r in rows]
+    if any(a[0] > b[0] for a, b in zip(keys, keys[1:])):
+        return "lines are not ordered by chromosome"
+    return None
+
+
 def oracle_call(line, out):
     op, kv = kv_of(line)
     lo = int(kv["lo"])
